@@ -52,13 +52,13 @@ def sign_case(draw):
         mn = min(U64, value + draw(st.sampled_from([1, 1, 2, 1 << 32])))
     else:
         mn = draw(gens.u64_edge)
-    exp = draw(st.one_of(st.sampled_from([-1, 0, 0, 0, 1, 2, 3, 18]), st.integers(-2, 19)))
-    min_bits = draw(st.one_of(st.sampled_from([0, 0, 0, 1, 2, 3, 4, 5, 61, 62, 63, 64, 64]), st.integers(-1, 65), st.integers(0, 16)))
-    blind = draw(st.one_of(gens.seckey_valid, gens.seckey_valid, gens.seckey_valid, gens.seckey_valid, gens.seckey_valid, gens.seckey_valid, gens.u256_edge,
-                           st.sampled_from([0, N, N + 1, gens.M256, N - 1, 1])))
-    msg = draw(st.one_of(st.just({"kind": "none"}), st.just({"kind": "none"}),
-                         st.builds(lambda h: {"kind": "bytes", "hex": h}, gens.message(4000)),
-                         st.builds(lambda d, s: {"kind": "cap", "delta": d, "seed": s}, st.sampled_from([-1, 0, 0, 1, -32, -33, 32]), st.integers(0, 1 << 30))))
+    W = RC.weighted
+    exp = W(draw, [(3, st.sampled_from([-1, 0, 0, 0, 1, 2, 3, 18])), (2, st.integers(-2, 19))])
+    min_bits = W(draw, [(3, st.sampled_from([0, 0, 0, 1, 2, 3, 4, 5, 61, 62, 63, 64, 64])), (2, st.integers(-1, 65)), (2, st.integers(0, 16))])
+    blind = W(draw, [(8, gens.seckey_valid), (1, gens.u256_edge), (1, st.sampled_from([0, N, N + 1, gens.M256, N - 1, 1]))])
+    msg = W(draw, [(4, st.just({"kind": "none"})),
+                   (2, st.builds(lambda h: {"kind": "bytes", "hex": h}, gens.message(4000))),
+                   (3, st.builds(lambda d, s: {"kind": "cap", "delta": d, "seed": s}, st.sampled_from([-1, 0, 0, 1, -32, -33, 32]), st.integers(0, 1 << 30)))])
     bufk = draw(st.sampled_from(["full"] * 8 + ["max"] * 4 + ["max-1", "zero", "64", "65", "exact", "exact", "exact-1", "exact-1", "rand", "rand"]))
     if bufk == "rand":
         bufk = "rand:%d" % draw(st.integers(0, RC.MAXPROOF))
